@@ -98,14 +98,18 @@ CLAIMED = {
     "C18": dict(
         category="proof",
         technique="Lean 4 proofs over is_safe_callable and the guard shape of SandboxedEnvironment.call regenerated from "
-                  "sandbox.py + recording unsafe callables along 31 call paths + structural validation of generated code",
+                  "sandbox.py + recording unsafe callables along 31 call paths + safe-then-unsafe call histories of short-lived "
+                  "callables in one environment + structural validation of generated code",
         text="Theorems (Props/C18.lean over Gen/Sandbox.lean): SandboxedEnvironment.call forwards to context.call only "
              "if is_safe_callable holds (call_guard); a callable carrying unsafe_callable or alters_data is rejected "
              "whatever else it carries (marked_unsafe_rejected / never_invoked). Tie: translator checks the exact shape "
              "`if not self.is_safe_callable(obj): raise SecurityError; return context.call(obj, ...)`; recording "
              "callables reached through 31 paths x 6 environments (sync/async/immutable/overridden check/i18n) must "
              "never run; generated code of every program must contain no context.call and no direct call of an l_N_* "
-             "value.",
+             "value; call histories in one environment (800 quick / 6000 thorough: safe short-lived bound methods, "
+             "closures, partials, callable instances first, then an unsafe one of the same kind reusing the freed "
+             "address, along 34 routes, 1-3 renders, default and overridden check, sync/async) must end in SecurityError "
+             "with the recorder never run.",
         note="Trusted: Lean kernel; translator; the compile-side claim (every Call node goes through environment.call) "
              "is per-program translation validation, not a theorem about compiler.py.",
         design_ref="§5 C18",
